@@ -72,30 +72,97 @@ def _visitor_classes(ctx: RuleCtx, mod: Module) -> T.List[Pass]:
     return out
 
 
+def _format_scope(ctx: RuleCtx) -> T.List[T.Tuple[str, ast.FunctionDef]]:
+    """Formatter.format and the Formatter methods it delegates to (`self._helper(...)`, two levels)."""
+    mod = ctx.repo.module(MF)
+    out: T.List[T.Tuple[str, ast.FunctionDef]] = [('Formatter.format', mod.func('Formatter.format'))]
+    meths = mod.methods('Formatter')
+    frontier = [out[0][1]]
+    for _ in range(2):
+        nxt = []
+        for f in frontier:
+            for c in ast.walk(f):
+                if isinstance(c, ast.Call) and isinstance(c.func, ast.Attribute) and attr_chain(c.func.value) == 'self' and c.func.attr in meths:
+                    g = meths[c.func.attr]
+                    if all(g is not x[1] for x in out):
+                        out.append((f'Formatter.{c.func.attr}', g))
+                        nxt.append(g)
+        frontier = nxt
+    return out
+
+
+def _accept_class(fn: ast.AST, c: ast.Call) -> T.Optional[str]:
+    """Dotted class name X of `<tree>.accept(X(...))` (through a single-definition local), else None."""
+    if not (isinstance(c.func, ast.Attribute) and c.func.attr == 'accept' and len(c.args) == 1):
+        return None
+    a = c.args[0]
+    if isinstance(a, ast.Name):
+        defs = [n.value for n in ast.walk(fn) if isinstance(n, ast.Assign) and len(n.targets) == 1 and isinstance(n.targets[0], ast.Name)
+                and n.targets[0].id == a.id]
+        if len(defs) != 1:
+            return None
+        a = defs[0]
+    if isinstance(a, ast.Call):
+        return attr_chain(a.func)
+    return None
+
+
 def _passes(ctx: RuleCtx) -> T.List[Pass]:
-    """Visitor classes of mformat.py plus every class instantiated as argument of `.accept(...)` in Formatter.format."""
+    """Visitor classes of mformat.py plus every class instantiated as argument of `.accept(...)` in Formatter.format
+    (or in the private methods it delegates to)."""
     mod = ctx.repo.module(MF)
     found = {p.name: p for p in _visitor_classes(ctx, mod)}
-    fmt = mod.func('Formatter.format')
-    binds: T.Dict[str, ast.AST] = {}
-    for n in ast.walk(fmt):
-        if isinstance(n, ast.Assign) and len(n.targets) == 1 and isinstance(n.targets[0], ast.Name):
-            binds[n.targets[0].id] = n.value
-    for c in ast.walk(fmt):
-        if isinstance(c, ast.Call) and isinstance(c.func, ast.Attribute) and c.func.attr == 'accept' and len(c.args) == 1:
-            a = c.args[0]
-            if isinstance(a, ast.Name) and a.id in binds:
-                a = binds[a.id]
-            if not isinstance(a, ast.Call):
-                raise Undecided(f'Formatter.format: visitor handed to accept() is not a constructor call: {short(c)}')
-            nm = attr_chain(a.func)
-            if nm is None:
-                raise Undecided(f'Formatter.format: cannot resolve visitor {short(a)}')
-            r = ctx.repo.resolve_class(mod, nm)
-            if r is None:
-                raise Undecided(f'Formatter.format: visitor class {nm} not found in the repository')
-            found.setdefault(r[1].name, Pass(r[0], r[1].name, r[1]))
+    for qn, fn in _format_scope(ctx):
+        for c in ast.walk(fn):
+            if isinstance(c, ast.Call) and isinstance(c.func, ast.Attribute) and c.func.attr == 'accept' and len(c.args) == 1:
+                nm = _accept_class(fn, c)
+                if nm is None:
+                    raise Undecided(f'{qn}: visitor handed to accept() is not a constructor call: {short(c)}')
+                r = ctx.repo.resolve_class(mod, nm)
+                if r is None:
+                    raise Undecided(f'{qn}: visitor class {nm} not found in the repository')
+                found.setdefault(r[1].name, Pass(r[0], r[1].name, r[1]))
     return list(found.values())
+
+
+class _Inline:
+    """Context: while methods of pass p are analysed, calls of expression-bodied helpers of p (or of its module) are inlined."""
+    def __init__(self, ctx: RuleCtx, p: Pass):
+        self.ctx, self.p = ctx, p
+        self.cache: T.Dict[str, T.Any] = {}
+
+    def resolve(self, c: ast.Call) -> T.Optional[ast.AST]:
+        from . import c16_sym
+        f = c.func
+        fn: T.Optional[ast.AST] = None
+        skip = False
+        if isinstance(f, ast.Attribute) and attr_chain(f.value) in ('self', 'cls', self.p.name):
+            r = self.ctx.repo.find_method(self.p.mod, self.p.cls, f.attr)
+            if r is not None:
+                fn = r[2]
+                decos = [attr_chain(d) for d in fn.decorator_list]
+                skip = 'staticmethod' not in decos
+                if 'property' in decos:
+                    return None
+        elif isinstance(f, ast.Name) and self.p.mod.has_func(f.id):
+            fn = self.p.mod.func(f.id)
+        if fn is None:
+            return None
+        return c16_sym.inline_call(fn, c, skip)
+
+    def use(self) -> None:
+        from . import c16_sym
+        c16_sym.INLINER = self.resolve
+
+    def __enter__(self) -> '_Inline':
+        from . import c16_sym
+        self.prev = c16_sym.INLINER
+        c16_sym.INLINER = self.resolve
+        return self
+
+    def __exit__(self, *a: T.Any) -> None:
+        from . import c16_sym
+        c16_sym.INLINER = self.prev
 
 
 def _methods(p: Pass) -> T.Dict[str, ast.FunctionDef]:
@@ -226,6 +293,7 @@ def _type_hook(model: NodeModel, types: T.Dict[str, str]) -> T.Callable[[ast.Cal
 
 def _must_be_unreachable(ctx: RuleCtx, p: Pass, qn: str, fn: ast.FunctionDef, site: ast.stmt, hyp: Hyp, what: str, construct: str, msg: str,
                          calls: T.Optional[T.Callable[[ast.Call, T.Any], T.Any]] = None) -> bool:
+    _Inline(ctx, p).use()
     rs = reach(fn, site, hyp, calls=calls)
     if not rs:
         ctx.ok(f'{qn}: {short(site, 60)} unreachable when {what}')
@@ -289,6 +357,7 @@ def r1(ctx: RuleCtx) -> None:
     n_own = n_layout = 0
     sem: T.List[T.Tuple[Pass, str, ast.FunctionDef, Write, str]] = []
     for p in passes:
+        _Inline(ctx, p).use()
         for mname, fn in _methods(p).items():
             qn = f'{p.name}.{mname}'
             ty = Typer(model, p.mod, p.cls, fn, ctx.repo)
@@ -525,6 +594,7 @@ def r2(ctx: RuleCtx) -> None:
         raise Undecided(f'no witness for the f-string substitution regex {fre!r}')
     n_ml = n_fs = 0
     for p in _passes(ctx):
+        _Inline(ctx, p).use()
         for mname, fn in _methods(p).items():
             qn = f'{p.name}.{mname}'
             ty = Typer(model, p.mod, p.cls, fn, ctx.repo)
@@ -839,8 +909,12 @@ def _dedent_like(p: Pass, name: str) -> bool:
     return True
 
 
-def _transform_ok(ctx: RuleCtx, p: Pass, qn: str, call: ast.Call, loc: str) -> T.Optional[str]:
-    """A justified transformer of whitespace content; returns the reason or None (unknown transformer)."""
+def _transform_ok(ctx: RuleCtx, p: Pass, qn: str, call: ast.Call, loc: str, binds: T.Optional[T.Dict[str, ast.AST]] = None) -> T.Optional[str]:
+    """A justified transformer of whitespace content; returns the reason or None (unknown transformer).
+    Locals are resolved by their reaching definition at the site first."""
+    if binds:
+        call = T.cast(ast.Call, subst(call, binds))
+        loc = norm(subst(ast.parse(loc, mode='eval').body, binds))
     cn = call_name(call) or ''
     if cn.startswith('self.') and len(call.args) == 1 and norm(call.args[0]) == loc and _dedent_like(p, cn[5:]):
         return f'{cn} only removes one trailing indentation unit (config indent_by)'
@@ -856,17 +930,25 @@ def _transform_ok(ctx: RuleCtx, p: Pass, qn: str, call: ast.Call, loc: str) -> T
 
 
 def _pass_order(ctx: RuleCtx, first: str, second: str) -> bool:
-    mod = ctx.repo.module(MF)
-    fn = mod.func('Formatter.format')
-    cfg = CFG(fn)
+    """In the function that runs the passes (Formatter.format or a private method it delegates to) every run of
+    `second` is preceded, in the same round, by a run of `first`."""
+    seen_any = False
+    ok = True
+    for qn, fn in _format_scope(ctx):
+        cfg = CFG(fn)
 
-    def acc(cls: str) -> T.List[T.Any]:
-        return cfg.nodes_with_call(lambda c: isinstance(c.func, ast.Attribute) and c.func.attr == 'accept' and len(c.args) == 1
-                                   and isinstance(c.args[0], ast.Call) and (attr_chain(c.args[0].func) or '').split('.')[-1] == cls)
-    a, b = acc(first), acc(second)
-    if not a or not b:
+        def acc(cls: str) -> T.List[T.Any]:
+            return cfg.nodes_with_call(lambda c: (_accept_class(fn, c) or '').split('.')[-1] == cls)
+        a, b = acc(first), acc(second)
+        if not b:
+            continue
+        seen_any = True
+        if not a:
+            raise Undecided(f'{qn}: runs {second} but {first} is run elsewhere; the order of the two passes is not decided across functions')
+        ok = ok and all(cfg.must_pass(cfg.entry, n, a) and cfg.must_pass(n, n, a) for n in b)
+    if not seen_any:
         raise Undecided(f'Formatter.format: accept({first}(..)) / accept({second}(..)) not found')
-    return all(cfg.must_pass(cfg.entry, n, a) and cfg.must_pass(n, n, a) for n in b)
+    return ok
 
 
 def r3(ctx: RuleCtx) -> None:
@@ -885,6 +967,7 @@ def r3(ctx: RuleCtx) -> None:
     for p in passes:
         movers = _movers(p)
         for mname, fn in _methods(p).items():
+            _Inline(ctx, p).use()
             qn = f'{p.name}.{mname}'
             ty = Typer(model, p.mod, p.cls, fn, ctx.repo)
             for w in collect_writes(fn):
@@ -923,11 +1006,16 @@ def _judge_site(ctx: RuleCtx, p: Pass, qn: str, fn: ast.FunctionDef, s: Site, w:
     if s.loc == 'value' and w.value is not None:
         branches = [w.value.body, w.value.orelse] if isinstance(w.value, ast.IfExp) else [w.value]
         verdicts = []
+        rs0 = reach(fn, s.stmt, Hyp())
+        site_binds = rs0[0].binds if rs0 and all({k: norm(v) for k, v in r.binds.items()} == {k: norm(v) for k, v in rs0[0].binds.items()} for r in rs0) else {}
+
+        def cn(e: ast.AST) -> str:
+            return norm(subst(e, site_binds))
         for b in branches:
-            if any(norm(l) == norm(w.node) for l in _add_leaves(b)):
+            if any(cn(l) == cn(w.node) for l in _add_leaves(subst(b, site_binds))):
                 verdicts.append('keep')
-            elif isinstance(b, ast.Call) and any(norm(a) == norm(w.node) for a in b.args):
-                why = _transform_ok(ctx, p, qn, b, norm(w.node))
+            elif isinstance(b, ast.Call) and any(cn(a) == cn(w.node) for a in b.args):
+                why = _transform_ok(ctx, p, qn, b, norm(w.node), site_binds)
                 if why is None:
                     raise Undecided(f'{qn}: `{short(s.stmt)}` transforms whitespace content with an unknown function')
                 verdicts.append('transform:' + why)
@@ -1027,7 +1115,10 @@ def _justified(ctx: RuleCtx, p: Pass, qn: str, fn: ast.FunctionDef, s: Site, par
             good = True
             n = 0
             for h in trailing_hyps(y, True):
-                for r in reach(g, None, h, whole=True):
+                _Inline(ctx, q).use()
+                rs_q = reach(g, None, h, whole=True)
+                _Inline(ctx, p).use()
+                for r in rs_q:
                     n += 1
                     moved = False
                     binds: T.Dict[str, ast.AST] = {}
@@ -1174,9 +1265,19 @@ def r4(ctx: RuleCtx) -> None:
     ctx.floor('check-mode paths', n_check, 4)
 
 
+def _scoped(fn: T.Callable[[RuleCtx], None]) -> T.Callable[[RuleCtx], None]:
+    def run(ctx: RuleCtx) -> None:
+        from . import c16_sym
+        try:
+            fn(ctx)
+        finally:
+            c16_sym.INLINER = None
+    return run
+
+
 RULES = [
-    Rule('C16.R1', 'formatter passes write only layout state; semantic rewrites only under their guards', r1),
-    Rule('C16.R2', 'literal simplification is guarded against every character that changes meaning', r2),
-    Rule('C16.R3', 'whitespace content holding a comment is never discarded', r3),
-    Rule('C16.R4', 'check mode reports a difference iff the written text would differ', r4),
+    Rule('C16.R1', 'formatter passes write only layout state; semantic rewrites only under their guards', _scoped(r1)),
+    Rule('C16.R2', 'literal simplification is guarded against every character that changes meaning', _scoped(r2)),
+    Rule('C16.R3', 'whitespace content holding a comment is never discarded', _scoped(r3)),
+    Rule('C16.R4', 'check mode reports a difference iff the written text would differ', _scoped(r4)),
 ]
